@@ -5,6 +5,8 @@ import json, os, re, shutil, sys
 mid, prop, caught, how = sys.argv[1:5]
 needs = sys.argv[5] if len(sys.argv) > 5 else ''
 src, dst = '/verif/seeded/_incoming/' + mid, '/verif/seeded/' + mid
+if os.path.exists(dst):
+    sys.exit('refusing: %s exists already (pick the next free number)' % dst)
 shutil.move(src, dst)
 json.dump({'id': mid, 'breaks_property': prop, 'needs_to_manifest': needs,
            'confirmed': 'harness/tools/confirm_mutant.sh: demo exits 0 on /repo HEAD, 1 with the patch; baseline suite 86 passed with the patch',
